@@ -170,7 +170,8 @@ def main(argv=None):
                 elif st == "undecided":
                     undecided.append(f"{full}: solver unknown")
                 else:
-                    bad = [o for o in os_ if o["status"] == "failed"][0]
+                    # prefer a counter-model that agrees with the real library (vc.Explorer.realistic_model), else the first
+                    bad = sorted([o for o in os_ if o["status"] == "failed"], key=lambda o: 0 if (o.get("model") or {}).get("$realistic") else 1)[0]
                     failed_items.append((r["scenario"], name, full, bad))
         # ---- replay counter-models on the real code
         confirmed = []
